@@ -2,6 +2,7 @@ import ModVerif.Drv.Util
 import ModVerif.Drv.Dirhash
 import ModVerif.Basic.Base64
 import ModVerif.Generated.FnDirhash
+import ModVerif.Model.Zip
 /-! `gdirhash.hash1`: the code REGENERATED from sumdb/dirhash/hash.go (Hash1) on the ops of the hand model. -/
 namespace ModVerif.Drv.GenDirhash
 open ModVerif ModVerif.Drv ModVerif.GoRt
@@ -21,6 +22,93 @@ def handle : Handler
         | .ok (h, none) => xh h
         | .ok (_, some e) => if e == "open" then "err:open" else if e.startsWith "dirhash: filenames with newlines" then "err:newline" else "err:unknown"
         | .error e => e.toString)
+  | _, _ => none
+
+end ModVerif.Drv.GenDirhash
+
+/-! `gdirhash.dirfiles…` / `gdirhash.hashdir…`: DirFiles and HashDir REGENERATED from sumdb/dirhash/hash.go, walking the
+    directory tree of the op (Basic/GoRtWalk.lean). -/
+namespace ModVerif.Drv.GenDirhash
+open ModVerif ModVerif.Drv ModVerif.GoRt
+open ModVerif.Generated.Dirhash
+
+mutual
+def toFs : ModVerif.Zip.Node → FsTree FileInfo
+  | .file .. => .file { IsDir := false }
+  | .dir cs => .dir { IsDir := true } (toFsList cs)
+def toFsList : List (Bytes × ModVerif.Zip.Node) → List (Bytes × FsTree FileInfo)
+  | [] => []
+  | (n, x) :: rest => (n, toFs x) :: toFsList rest
+end
+
+/-- the symbolic scratch directory of the `…at` / `…rel` ops -/
+def rootPath : Bytes := B "/S/c19root"
+
+def treeOf : ModVerif.Dirhash.Root → Option (FsTree FileInfo)
+  | .missing => none
+  | .file => some (.file { IsDir := false })
+  | .dir files => some (.dir { IsDir := true }
+      (toFsList (ModVerif.Zip.treeOfList (files.map fun f => (f.1, ModVerif.Zip.Node.file .regular (f.2.length : Int) f.2 false)))))
+
+/-- a path as the file system resolves it from the working directory `cwd` -/
+def resolve (cwd p : Bytes) : Bytes :=
+  if p.head? == some 47 then ModVerif.Dirhash.clean p else ModVerif.Dirhash.joinPath cwd p
+
+def run (files : Bool) (cwd dir : Bytes) (root : ModVerif.Dirhash.Root) (pfx : Bytes) : String :=
+  let walkRoot : Bytes → Option (FsTree FileInfo) := fun p => if resolve cwd p == rootPath then treeOf root else none
+  let content := match root with | .dir fs => fs | _ => []
+  let osOpenRead : Bytes → (Bytes × Option String) := fun p =>
+    let a := resolve cwd p
+    if isPrefixOfB (rootPath ++ [47]) a then
+      match content.lookup (a.drop (rootPath.length + 1)) with
+      | some c => (c, none)
+      | none => ([], some "open")
+    else ([], some "open")
+  let total := (content.map fun f => f.1.length).sum
+  let fuel := 4 * total + 4 * content.length + 64
+  let showE (e : String) : String :=
+    if e == "open" then "err:open" else if e.startsWith "dirhash: filenames with newlines" then "err:newline"
+    else if e == "%s is not a directory" then "err:notdir" else if e.startsWith "lstat" then "err:walk" else "err:unknown:" ++ e
+  if files then
+    match DirFiles walkRoot fuel dir pfx with
+    | .ok (l, none) => xhList l
+    | .ok (_, some e) => showE e
+    | .error e => e.toString
+  else
+    let hash : List Bytes → (Bytes → (Bytes × Option String)) → (Bytes × Option String) := fun fl op =>
+      match Hash1 Base64.encodeStd shaSumI (fl.length + 4) fl op with
+      | .ok r => r
+      | .error e => ([], some ("panic:" ++ e.toString))
+    match HashDir osOpenRead walkRoot fuel dir pfx hash with
+    | .ok (h, none) => xh h
+    | .ok (_, some e) => showE e
+    | .error e => e.toString
+
+def handleDir : Handler
+  | "dirfiles", [kind, pfx, rels] => do
+      let pfx ← hx pfx; let rels ← hxList rels
+      let root ← Dirhash.parseRoot kind (rels.map fun r => (r, []))
+      pure (run true [47] rootPath root pfx)
+  | "hashdir", [kind, pfx, rels, cs] => do
+      let pfx ← hx pfx; let rels ← hxList rels; let cs ← hxList cs
+      let root ← Dirhash.parseRoot kind (rels.zip cs)
+      pure (run false [47] rootPath root pfx)
+  | "dirfilesat", [dir, kind, pfx, rels] => do
+      let dir ← hx dir; let pfx ← hx pfx; let rels ← hxList rels
+      let root ← Dirhash.parseRoot kind (rels.map fun r => (r, []))
+      pure (run true [47] dir root pfx)
+  | "hashdirat", [dir, kind, pfx, rels, cs] => do
+      let dir ← hx dir; let pfx ← hx pfx; let rels ← hxList rels; let cs ← hxList cs
+      let root ← Dirhash.parseRoot kind (rels.zip cs)
+      pure (run false [47] dir root pfx)
+  | "dirfilesrel", [cwd, dir, kind, pfx, rels] => do
+      let cwd ← hx cwd; let dir ← hx dir; let pfx ← hx pfx; let rels ← hxList rels
+      let root ← Dirhash.parseRoot kind (rels.map fun r => (r, []))
+      pure (run true cwd dir root pfx)
+  | "hashdirrel", [cwd, dir, kind, pfx, rels, cs] => do
+      let cwd ← hx cwd; let dir ← hx dir; let pfx ← hx pfx; let rels ← hxList rels; let cs ← hxList cs
+      let root ← Dirhash.parseRoot kind (rels.zip cs)
+      pure (run false cwd dir root pfx)
   | _, _ => none
 
 end ModVerif.Drv.GenDirhash
